@@ -437,8 +437,10 @@ CHECKS["C04"] = {
                   "query-level cross-check through the production planner"),
     "rule": ("case = database intervals (source 1..60 s dividing 5 min; month-type target 5/10/15/30 min and/or year-type target 1/2/3/4/6 h), 1-3 source families around boundary dates "
              "(month ends, leap day, year end/start, 23:00 + next day 00:00), 1-3 metrics x 1-5 fields (sum/min/max/last/first, values k/8) x 1-5 series, sparse/dense/out-of-order slots with ms jitter, "
-             "history of write / flush(all|some families) / rollup(kv.VerifRollup per family | Store.ForceRollup) / reopen steps, optionally one crash image "
-             "(before the source commit, between the two target commits, before the first / between the reference clean-ups; 1 or 2 restarts, then rollup twice), up to 3 queries group by time(target). "
+             "history of write / flush(all|some families) / rollup(kv.VerifRollup per family | Store.ForceRollup) / reopen steps; a rollup step may carry one crash image "
+             "(before the source commit, between the two target commits, before the first / between the reference clean-ups; 1 or 2 restarts, then rollup twice) or 1-2 harness-owned interleavings "
+             "(at the table-create seam of the job's output in the target family a write + flush of a source family - usually the job's own - runs on the job's goroutine: that file is not an input of the running job and must keep waiting); "
+             "up to 3 queries group by time(target). "
              "After EVERY step all blocks of all families of all segments of each target interval must equal the field-type aggregate of exactly the points of the source files rolled up so far, "
              "at the segment/family/slot computed with Go's calendar; after a rollup: source rollup files == files not yet rolled up, no target reference files. "
              "non-trivial = some target slot is fed by >= 2 source slots and >= 2 source files were rolled up; distinct = hash of the complete plan (JSON)"),
